@@ -2,6 +2,7 @@
 //!   exec   <ops.ndjson> <events.ndjson>
 //!   replay <cases.ndjson> <mismatches.ndjson>     cases carry "exp"; compares exp ⊑ res
 //!   gen    <family> <seed> <n> <events.ndjson>
+mod abi_ev;
 mod alloc;
 mod elffile;
 mod exec;
@@ -172,6 +173,7 @@ pub fn gen_more(fam: &str, r: &mut rng::Rng, n: u64, x: &mut exec::Exec, sink: &
         "elf" => gen_elf::elf_family(r, n, x, sink, false),
         "elfcorrupt" => gen_elf::elf_family(r, n, x, sink, true),
         "garbage" => gen_elf::garbage_family(r, n, x, sink),
+        "abi" => abi_ev::run(r, n, x, sink),
         "prefix" => gen_elf::prefix_family(r, n, x, sink, false),
         "prefixall" => gen_elf::prefix_family(r, n, x, sink, true),
         "locate" => gen_elf::locate_family(r, n, x, sink),
